@@ -50,6 +50,10 @@ def jv(v):
 ERRORS_ONLY = ("(fun a b => list_eqb (fun x y => pstr_eqb (fst x) (fst y) && exn_eqb (snd x) (snd y)) (o_errors a) (o_errors b))")
 
 
+FINDINGS_AND_ERRORS = ("(fun a b => list_eqb finding_eqb (o_results a) (o_results b) && "
+                       "list_eqb (fun x y => pstr_eqb (fst x) (fst y) && exn_eqb (snd x) (snd y)) (o_errors a) (o_errors b))")
+
+
 def run_cases(progs, R=None, label="scan", plugins=("Plugins.All", "all_plugins"), eq="scan_out_eqb"):
     """progs: list of dicts {src: bytes|str, include: [...]|None, exclude: [...]|None, ignore_nosec: bool}.
     Returns (outs, mismatches) where outs[i] are implementation observables and mismatches is a list of
